@@ -68,6 +68,10 @@ def harness_overlay(work, instrument=True, extra=None):
                 continue
             src = os.path.join(dirpath, f)
             rel = os.path.relpath(src, hroot)
+            if rel.startswith("cmdline" + os.sep):
+                # extra file of the real command line program (registers the scripted deployer)
+                repl[os.path.join(REPO, "cmd/arcaflow", "zz_verif_" + os.path.basename(rel))] = src
+                continue
             repl[os.path.join(REPO, "internal/verif", rel)] = src
     points = []
     if instrument:
